@@ -3,7 +3,7 @@ import Mdns.Model.Names
 import Mdns.Driver.Wire
 /-
   Line-protocol executor and monitor for the C08 component ops (harness/src/c08.rs):
-  rec-compare, tiebreak, probe-time, name-change, hostname-change, check-name, split-sub,
+  rec-compare, tiebreak, probe-time, probe-run, name-change, hostname-change, check-name, split-sub,
   escaped-labels.
 -/
 namespace Mdns.Driver.C08
@@ -152,6 +152,14 @@ def exec (op : String) (ts impl : List String) : Option String :=
     let (now, _) ← P.nat ts
     let p := Probe.new start
     pure (joinToks ["ok", toString p.next, boolTok (p.expired now), toString (p.updateNextSend now).next])
+  | "probe-run" => do
+    let (start, ts) ← P.nat ts
+    let (n, ts) ← P.nat ts
+    let times := (ts.take n).filterMap String.toNat?
+    if times.length != n then none else
+    let r := (Probe.new start).run times
+    let acts := r.1.map fun (e : Bool × Nat) => (if e.1 then "s" else "e") ++ toString e.2
+    pure (joinToks ["ok", if acts.isEmpty then "-" else ",".intercalate acts, toString r.2.start, toString r.2.next])
   | "name-change" => do
     let (s, _) ← P.hex ts
     pure (resLine (nameChange s))
@@ -303,6 +311,22 @@ def monitor (op : String) (ts impl : List String) : Option String :=
     match impl with
     | ["panic"] => some "probe-time-panics"
     | "ok" :: _ => none
+    | _ => some "unparsable-observation"
+  | "probe-run" =>
+    -- whatever the instants: at most three queries, 250 ms apart, and an end only after three
+    match impl with
+    | ["panic"] => some "probe-run-panics"
+    | ["ok", acts, _, _] =>
+      let toks := if acts == "-" then [] else acts.splitOn ","
+      let sends := toks.filterMap fun a => if a.startsWith "s" then (a.drop 1).toNat? else none
+      let ended := toks.any fun a => a.startsWith "e"
+      let endAt := (toks.filterMap fun a => if a.startsWith "e" then (a.drop 1).toNat? else none).headD 0
+      let apart := (sends.zip (sends.drop 1)).all fun (x : Nat × Nat) => x.1 + 250 ≤ x.2
+      if sends.length > 3 then some "more-than-three-probe-queries"
+      else if !apart then some "probe-queries-less-than-250-ms-apart"
+      else if ended && sends.length != 3 then some "probe-ends-before-three-queries"
+      else if ended && !(sends.all fun x => x + 250 ≤ endAt) then some "probe-ends-less-than-250-ms-after-a-query"
+      else none
     | _ => some "unparsable-observation"
   | "name-change" | "hostname-change" =>
     match P.hex ts with
